@@ -5,6 +5,49 @@ package router
 // Contracts for the deductive verifier under /verif (govc). This file contains
 // only comments: it adds no code with or without the build tag.
 
+
+// ---------------------------------------------------------------------------
+// Field invariants: configuration fields that are set once, never nil
+
+//@ fieldinv broker.log : !isnil(v)
+//@ fieldinv broker.actionChan : v != nil
+//@ fieldinv broker.stopped : v != nil
+//@ fieldinv broker.topicSubscription : v != nil
+//@ fieldinv broker.pfxTopicSubscription : v != nil
+//@ fieldinv broker.wcTopicSubscription : v != nil
+//@ fieldinv broker.eventHistoryStore : v != nil
+//@ fieldinv broker.subscriptions : v != nil
+//@ fieldinv broker.sessionSubIDSet : v != nil
+//@ fieldinv broker.idGen : v != nil
+//@ fieldinv broker.filterFactory : v != nil
+//@ fieldinv dealer.log : !isnil(v)
+//@ fieldinv dealer.actionChan : v != nil
+//@ fieldinv dealer.stopped : v != nil
+//@ fieldinv dealer.procRegMap : v != nil
+//@ fieldinv dealer.pfxProcRegMap : v != nil
+//@ fieldinv dealer.wcProcRegMap : v != nil
+//@ fieldinv dealer.registrations : v != nil
+//@ fieldinv dealer.calls : v != nil
+//@ fieldinv dealer.invocations : v != nil
+//@ fieldinv dealer.invocationByCall : v != nil
+//@ fieldinv dealer.calleeRegIDSet : v != nil
+//@ fieldinv dealer.idGen : v != nil
+//@ fieldinv dealer.prng : v != nil
+//@ fieldinv realm.log : !isnil(v)
+//@ fieldinv realm.broker : v != nil
+//@ fieldinv realm.dealer : v != nil
+//@ fieldinv realm.clients : v != nil
+//@ fieldinv realm.testaments : v != nil
+//@ fieldinv realm.actionChan : v != nil
+//@ fieldinv realm.stopped : v != nil
+//@ fieldinv realm.metaIDGen : v != nil
+//@ fieldinv realm.metaProcMap : v != nil
+//@ fieldinv realm.metaDone : v != nil
+//@ fieldinv router.log : !isnil(v)
+//@ fieldinv router.realms : v != nil
+//@ fieldinv router.actionChan : v != nil
+//@ fieldinv router.stopped : v != nil
+
 // ---------------------------------------------------------------------------
 // Broker: ownership and data-structure invariant
 
@@ -703,6 +746,7 @@ package router
 //@   callsite syncError : [own-invocation] requestID(arg1.ID, arg2.Request) in d.invocations && d.invocations[requestID(arg1.ID, arg2.Request)].callID == requestID(caller.ID, msg.Request)
 //@   callsite Next : [details-before-id-caller] "caller" in details ==> reg.disclose || (optTrue(msg.Options, "disclose_me") && d.allowDisclose && hasFeature(callee, "callee", "caller_identification"))
 //@   callsite Next : [details-before-id-no-timeout] !("timeout" in details)
+//@   sendsite invocation : [progress-flag-tracked] d.invocations[requestID(callee.ID, invocationID)].inProgress == optTrue(msg.Options, "progress")
 //@   sendsite invocation : [receive-progress] "receive_progress" in m.(*wamp.Invocation).Details ==> old(isNewCall(d, caller, msg)) && optTrue(msg.Options, "receive_progress") && hasFeature(callee, "callee", "progressive_call_results") && hasFeature(callee, "callee", "call_canceling")
 //@   sendsite invocation : [receive-progress-granted] old(isNewCall(d, caller, msg)) && optTrue(msg.Options, "receive_progress") && hasFeature(callee, "callee", "progressive_call_results") && hasFeature(callee, "callee", "call_canceling") ==> "receive_progress" in m.(*wamp.Invocation).Details && m.(*wamp.Invocation).Details["receive_progress"] == box(true)
 //@   sendsite invocation : [caller-disclosed-only-if-allowed] "caller" in m.(*wamp.Invocation).Details ==> reg.disclose || (optTrue(msg.Options, "disclose_me") && d.allowDisclose && hasFeature(callee, "callee", "caller_identification"))
